@@ -665,7 +665,7 @@ func TestC20Hazard(t *testing.T) {
 		peers := gen.Peers(r, 2)
 		self, other := peers[0], peers[1]
 		v := gen.SimpleVoucher("VT0", "v")
-		switch c.Index % 7 {
+		switch c.Index % 8 {
 		case 3:
 			// (ii) the responder's graphsync request (carrying its acceptance) is in the incoming-request
 			// hook while the same channel is being closed / failed: hook and cleanup meet
@@ -742,6 +742,37 @@ func TestC20Hazard(t *testing.T) {
 				f.tr.PauseChannel(bg, chid)
 			})
 			c.Count("hazard.cleanup-during-open", 1)
+		case 7:
+			// (vii) Stop arrives while a per-transfer subscriber is still handling the channel's terminal event
+			f := newMgrFixPlain(c, self, nil)
+			entered, release := make(chan struct{}, 1), make(chan struct{})
+			cb := func(ev datatransfer.Event, st datatransfer.ChannelState) {
+				if isTerminal(st.Status()) {
+					select {
+					case entered <- struct{}{}:
+						<-release
+					default:
+					}
+				}
+			}
+			chid, err := f.m.OpenPushDataChannel(bg, other, v, dummyCid, gen.AllSelector, datatransfer.WithSubscriber(cb))
+			if err != nil {
+				panic(err)
+			}
+			c.HangCheck("C20", "stop-while-subscriber-handles-terminal-event", 10*time.Second, func() {
+				var wg sync.WaitGroup
+				wg.Add(2)
+				go func() { defer wg.Done(); f.m.CloseDataTransferChannel(bg, chid) }()
+				select {
+				case <-entered:
+				case <-time.After(5 * time.Second):
+				}
+				go func() { defer wg.Done(); f.m.Stop(bg) }()
+				time.Sleep(100 * time.Millisecond) // Stop is under way while the callback is still running
+				close(release)
+				wg.Wait()
+			})
+			c.Count("hazard.stop-vs-terminal-subscriber", 1)
 		case 6:
 			// (vi) Stop arrives while block reports that reach their channel's data limit are in flight (the
 			// report that crosses the limit sends two or three events in a row, under the lock Stop needs)
@@ -795,7 +826,7 @@ func TestC20Hazard(t *testing.T) {
 			var chid datatransfer.ChannelID
 			inLoop, release := make(chan struct{}, 1), make(chan struct{})
 			var deliver func()
-			if c.Index%7 == 4 {
+			if c.Index%8 == 4 {
 				tid := datatransfer.TransferID(21)
 				chid = datatransfer.ChannelID{Initiator: other, Responder: self, ID: tid}
 				req, _ := message.NewRequest(tid, false, true, &v, dummyCid, gen.AllSelector)
@@ -827,8 +858,8 @@ func TestC20Hazard(t *testing.T) {
 				default:
 				}
 			})
-			useResume := c.Index%14 >= 7
-			c.HangCheck("C20", fmt.Sprintf("pause-resume-while-message-queued-in-graphsync-loop case=%d resume=%v", c.Index%7, useResume), 6*time.Second, func() {
+			useResume := c.Index%16 >= 8
+			c.HangCheck("C20", fmt.Sprintf("pause-resume-while-message-queued-in-graphsync-loop case=%d resume=%v", c.Index%8, useResume), 6*time.Second, func() {
 				var wg sync.WaitGroup
 				wg.Add(2)
 				go func() { defer wg.Done(); deliver() }()
@@ -862,10 +893,10 @@ func TestC20Hazard(t *testing.T) {
 			c.HangCheck("C20", "manager-stop", 20*time.Second, func() { f.m.Stop(bg) })
 			c.Count("hazard.pause-vs-queued-graphsync-message", 1)
 		}
-		c.Mark("hazard=%d", c.Index%7)
+		c.Mark("hazard=%d", c.Index%8)
 		c.NonTrivial()
 		if c.Index < 3 {
-			c.Sample(map[string]any{"hazard": []string{"gs request carrying a dt cancel request", "OnChannelOpened refuses inside the outgoing-request hook", "CleanupChannel between OpenChannel and its outgoing-request hook", "incoming-request hook overlapping the ending of the same channel", "pause/resume while an incoming request for the channel is queued in graphsync's response manager loop", "pause/resume while an incoming response for the channel is queued in graphsync's request manager loop", "Stop while block reports that reach the data limit are in flight"}[c.Index%7]})
+			c.Sample(map[string]any{"hazard": []string{"gs request carrying a dt cancel request", "OnChannelOpened refuses inside the outgoing-request hook", "CleanupChannel between OpenChannel and its outgoing-request hook", "incoming-request hook overlapping the ending of the same channel", "pause/resume while an incoming request for the channel is queued in graphsync's response manager loop", "pause/resume while an incoming response for the channel is queued in graphsync's request manager loop", "Stop while block reports that reach the data limit are in flight", "Stop while a per-transfer subscriber handles the terminal event"}[c.Index%8]})
 		}
 	})
 }
